@@ -117,7 +117,7 @@ Record c16_obs := mk_obs {
   o_orig : list Z;     (* runs when the undecorated object is used *)
   o_runs1 : list Z;    (* runs through the decorated object *)
   o_runs2 : list Z;    (* runs through the twice-decorated object *)
-  o_execs : list Z     (* executions, after decoration, of the two marker lines of every leaf function *)
+  o_execs : list Z     (* executions, after decoration, of the first and the clean-up line of every leaf function *)
 }.
 
 Definition model_obs (c : callable) (regs : list Z) (plan : list (access * Z)) : c16_obs :=
@@ -150,21 +150,23 @@ Fixpoint run_depths_ok (l : list Z) : bool :=
               else match r with [] => false | e :: r' => (1 <=? e) && run_depths_ok r' end
   end.
 
-Definition spec_ok (o : c16_obs) (hits : list Z) : bool :=
+Definition spec_ok (o : c16_obs) (hits execs_all : list Z) : bool :=
   (* every function executed through the decorated object ran with the profiler enabled *)
   run_depths_ok (o_runs1 o) && run_depths_ok (o_runs2 o)
   (* ... the same functions as without decoration *)
   && lz_eqb (run_ids (o_runs1 o)) (run_ids (o_orig o))
-  (* its lines are in the statistics with the exact number of executions *)
-  && lz_eqb hits (o_execs o)
+  (* its lines - first line, the middle line (from which the exception is raised in raising runs), the
+     clean-up line, the line of the first suspension - are in the statistics with the exact number of
+     executions the driver counted *)
+  && lz_eqb hits execs_all
   (* each executed function is registered exactly once *)
   && forallb (fun f => (f =? -2) || (count_z f (o_funcs1 o) =? 1)) (run_ids (o_runs1 o))
   (* decorating again: no new registration, no new layer, same depth *)
   && lz_eqb (o_funcs2 o) (o_funcs1 o) && lz_eqb (o_shape2 o) (o_shape1 o) && lz_eqb (o_runs2 o) (o_runs1 o).
 
-Definition case_ok (c : callable) (regs : list Z) (plan : list (access * Z)) (impl : c16_obs) (hits : list Z)
-  : bool * bool :=
-  (obs_eqb (model_obs c regs plan) impl, spec_ok impl hits).
+Definition case_ok (c : callable) (regs : list Z) (plan : list (access * Z)) (impl : c16_obs)
+           (hits execs_all : list Z) : bool * bool :=
+  (obs_eqb (model_obs c regs plan) impl, spec_ok impl hits execs_all).
 
 (* ---- several objects decorated in a row (the originals are temporaries) ---------------- *)
 Fixpoint decorate_all (regs : list Z) (cs : list callable) : list Z * list callable :=
@@ -183,7 +185,7 @@ Definition execs_of (ran : list Z) (c : callable) : list Z :=
    of the object it was made from (Python's own semantics of that object, `invoke` on the original),
    each registered once, with exact hit counts. *)
 Definition sibs_ok (a : access) (sibs : list callable) (impl_regs : list Z)
-           (impl_shapes impl_runs : list (list Z)) (impl_execs impl_hits : list Z) : bool * bool :=
+           (impl_shapes impl_runs : list (list Z)) (impl_execs impl_hits impl_execs_all : list Z) : bool * bool :=
   let '(rf, ws) := decorate_all [] sibs in
   let ran := flat_map (fun w => map fst (invoke 0 a w)) ws in
   (lz_eqb rf impl_regs
@@ -193,6 +195,6 @@ Definition sibs_ok (a : access) (sibs : list callable) (impl_regs : list Z)
    forallb run_depths_ok impl_runs
    && list_eqb lz_eqb (map run_ids impl_runs) (map (fun s => map fst (invoke 0 a s) ++ [-2]) sibs)
    && forallb (fun r => forallb (fun f => (f =? -2) || (count_z f impl_regs =? 1)) (run_ids r)) impl_runs
-   && lz_eqb impl_hits impl_execs).
+   && lz_eqb impl_hits impl_execs_all).
 
 Definition both (x y : bool * bool) : bool * bool := (fst x && fst y, snd x && snd y).
